@@ -28,14 +28,35 @@ Lemma xstep_if m w k rest : ty k = tt_IfToken ->
    end).
 Proof. intros E. cbn [parse_xstmt]. rewrite E. reflexivity. Qed.
 
-Lemma xstep_while m k rest : ty k = tt_WhileToken ->
-  parse_xstmt (S m) false (k :: rest) =
+Lemma xstep_while m w k rest : ty k = tt_WhileToken ->
+  parse_xstmt (S m) w (k :: rest) =
   (r1 <~ expect tt_OpenParenToken rest ;;
    '(c, r2) <~ parse true prec_OpExpr r1 ;;
    r3 <~ expect tt_CloseParenToken r2 ;;
-   '(s, r4) <~ parse_xstmt m false r3 ;;
-   Ok (XWhile c s, skip_semi false r4)).
+   '(s, r4) <~ parse_xstmt m w r3 ;;
+   if w then Ok (XFor FNone (Some c) None (match s with XBlock l => l | _ => [s] end), skip_semi false r4)
+   else Ok (XWhile c s, skip_semi false r4)).
 Proof. intros E. cbn [parse_xstmt]. rewrite E. reflexivity. Qed.
+
+Lemma xstep_throw m w k c rest : ty k = tt_ThrowToken -> lt c = false ->
+  parse_xstmt (S m) w (k :: c :: rest) = ('(e, r) <~ parse true prec_OpExpr (c :: rest) ;; Ok (XThrow e, skip_semi true r)).
+Proof. intros E Hl. cbn [parse_xstmt]. rewrite E. change (tt_ThrowToken =? tt_OpenBraceToken) with false. cbn. rewrite Hl. reflexivity. Qed.
+
+Lemma xstep_var m w k rest : ty k = tt_VarToken ->
+  parse_xstmt (S m) w (k :: rest) =
+  ('(l, r) <~ parse_xvar (S (length rest)) true rest [] ;; if stmt_end_ok r then Ok (XVar l, skip_semi true r) else Fail).
+Proof. intros E. cbn [parse_xstmt]. rewrite E. reflexivity. Qed.
+
+Lemma xstep_branch m w k rest : ty k = tt_BreakToken \/ ty k = tt_ContinueToken ->
+  parse_xstmt (S m) w (k :: rest) =
+  match rest with
+  | c :: r =>
+      if negb (lt c) && is_identifier (ty c) then Ok (XBranch (ty k) (Some (data c)), skip_semi true r)
+      else if negb (lt c) && ((ty c =? tt_YieldToken) || (ty c =? tt_AwaitToken)) then OutFrag
+      else Ok (XBranch (ty k) None, skip_semi true rest)
+  | [] => Ok (XBranch (ty k) None, [])
+  end.
+Proof. intros [E|E]; cbn [parse_xstmt]; rewrite E; reflexivity. Qed.
 
 Lemma xstep_do m w k rest : ty k = tt_DoToken ->
   parse_xstmt (S m) w (k :: rest) =
@@ -81,6 +102,10 @@ Proof.
   - rewrite Hs. cbn [rbind]. destruct s; cbn [xwrap rbind inj]; try reflexivity. exfalso. eapply Hnl; reflexivity.
 Qed.
 
+Lemma xstep_for m w k rest : ty k = tt_ForToken ->
+  parse_xstmt (S m) w (k :: rest) = for_arm (parse_xstmt m w) (fun ts' => parse_xlist m w ts' []) rest.
+Proof. intros E. cbn [parse_xstmt]. rewrite E. reflexivity. Qed.
+
 (* ---- the grammar of the statement fragment ------------------------------------------------------------------------------ *)
 
 (* after a statement that is not terminated by ';': no ';' on the same line (the code would drop that EmptyStatement:
@@ -88,6 +113,42 @@ Qed.
 Definition no_same_line_semi (rest : list token) : Prop := same_line_semi rest = false.
 
 Definition first_is (t : Z) (ts : list token) : bool := match ts with k :: _ => ty k =? t | [] => false end.
+
+(* where automatic semicolon insertion applies: the end of the input, a line break, or '}' *)
+Definition asi_ok (rest : list token) : Prop :=
+  match rest with [] => True | c :: _ => lt c = true \/ ty c = tt_CloseBraceToken end.
+
+(* the terminator of a statement that ';' terminates: a ';' on any line (consumed), or none where automatic semicolon
+   insertion applies.  ex: the statement ends with an expression, which the next token must not continue *)
+Inductive term (ex : bool) : list token -> list token -> Prop :=
+| T_semi sc rest : ty sc = tt_SemicolonToken -> term ex (sc :: rest) rest
+| T_asi rest : first_is tt_SemicolonToken rest = false -> asi_ok rest ->
+    (ex = true -> ncont true prec_OpExpr rest = true) -> term ex rest rest.
+
+(* var bindings: identifier [= AssignmentExpression] , ... *)
+Inductive xvars (inf : bool) : list token -> list (list Z * option expr) -> list token -> Prop :=
+| V_one c rest : is_identifier (ty c) = true -> first_is tt_EqToken rest = false -> first_is tt_CommaToken rest = false ->
+    xvars inf (c :: rest) [(data c, None)] rest
+| V_one_init c e xs x rest : is_identifier (ty c) = true -> ty e = tt_EqToken -> derives inf Assignment xs x ->
+    ncont inf prec_OpAssign rest = true -> first_is tt_CommaToken rest = false ->
+    xvars inf (c :: e :: xs ++ rest) [(data c, Some x)] rest
+| V_more c cm ts l rest : is_identifier (ty c) = true -> ty cm = tt_CommaToken -> xvars inf ts l rest ->
+    xvars inf (c :: cm :: ts) ((data c, None) :: l) rest
+| V_more_init c e xs x cm ts l rest : is_identifier (ty c) = true -> ty e = tt_EqToken -> derives inf Assignment xs x ->
+    ty cm = tt_CommaToken -> xvars inf ts l rest ->
+    xvars inf (c :: e :: xs ++ cm :: ts) ((data c, Some x) :: l) rest.
+
+(* the initialiser of a for statement (In flag off), in front of its ';' *)
+Inductive finit : list token -> xfinit -> list token -> Prop :=
+| FI_none r : first_is tt_SemicolonToken r = true -> finit r FNone r
+| FI_expr xs x r : derives false Expression xs x -> first_is tt_LetToken xs = false -> first_is tt_SemicolonToken r = true ->
+    finit (xs ++ r) (FExpr x) r
+| FI_var v ts l r : ty v = tt_VarToken -> xvars false ts l r -> first_is tt_SemicolonToken r = true -> finit (v :: ts) (FVar l) r.
+
+(* an optional expression in front of the token t *)
+Inductive fopt (t : Z) : list token -> option expr -> list token -> Prop :=
+| FO_none r : first_is t r = true -> fopt t r None r
+| FO_some xs x r : derives true Expression xs x -> first_is t r = true -> fopt t (xs ++ r) (Some x) r.
 
 Inductive xone : list token -> xstmt -> list token -> Prop :=
 | XO_base ts s rest : one ts s rest -> (forall n v, s <> SLabel n v) -> xone ts (inj s) rest
@@ -122,6 +183,36 @@ Inductive xone : list token -> xstmt -> list token -> Prop :=
     ty k = tt_DoToken -> xone ts s (w :: lp :: cs ++ rp :: rest) -> ty w = tt_WhileToken -> ty lp = tt_OpenParenToken ->
     derives true Expression cs c -> ty rp = tt_CloseParenToken -> first_is tt_SemicolonToken rest = false ->
     xone (k :: ts) (XDo s c) rest
+  (* throw [no LineTerminator here] Expression ; *)
+| XO_throw k xs x r rest :
+    ty k = tt_ThrowToken -> derives true Expression xs x -> (forall c xs', xs = c :: xs' -> lt c = false) ->
+    term true r rest -> xone (k :: xs ++ r) (XThrow x) rest
+  (* break / continue [no LineTerminator here] LabelIdentifier ; *)
+| XO_branch k r rest :
+    ty k = tt_BreakToken \/ ty k = tt_ContinueToken ->
+    (forall c r', r = c :: r' -> lt c = true \/ (is_identifier (ty c) = false /\ ty c <> tt_YieldToken /\ ty c <> tt_AwaitToken)) ->
+    term false r rest -> xone (k :: r) (XBranch (ty k) None) rest
+| XO_branch_label k c r rest :
+    ty k = tt_BreakToken \/ ty k = tt_ContinueToken -> lt c = false -> is_identifier (ty c) = true ->
+    term false r rest -> xone (k :: c :: r) (XBranch (ty k) (Some (data c))) rest
+  (* var BindingIdentifier [= AssignmentExpression] , ... ; *)
+| XO_var k ts l r rest :
+    ty k = tt_VarToken -> xvars true ts l r -> term false r rest ->
+    xone (k :: ts) (XVar l) rest
+  (* for ( [Expression | var ...] ; [Expression] ; [Expression] ) Statement — the body is stored as a block *)
+| XO_for_block k lp ti i s1 tc c s2 tp p rp ko tb l rest :
+    ty k = tt_ForToken -> ty lp = tt_OpenParenToken -> finit ti i (s1 :: tc) -> fopt tt_SemicolonToken tc c (s2 :: tp) ->
+    fopt tt_CloseParenToken tp p (rp :: ko :: tb) -> ty ko = tt_OpenBraceToken -> xlist tb l rest -> no_same_line_semi rest ->
+    xone (k :: lp :: ti) (XFor i c p l) rest
+| XO_for_empty k lp ti i s1 tc c s2 tp p rp sc rest :
+    ty k = tt_ForToken -> ty lp = tt_OpenParenToken -> finit ti i (s1 :: tc) -> fopt tt_SemicolonToken tc c (s2 :: tp) ->
+    fopt tt_CloseParenToken tp p (rp :: sc :: rest) -> ty sc = tt_SemicolonToken -> no_same_line_semi rest ->
+    xone (k :: lp :: ti) (XFor i c p []) rest
+| XO_for_stmt k lp ti i s1 tc c s2 tp p rp tb s rest :
+    ty k = tt_ForToken -> ty lp = tt_OpenParenToken -> finit ti i (s1 :: tc) -> fopt tt_SemicolonToken tc c (s2 :: tp) ->
+    fopt tt_CloseParenToken tp p (rp :: tb) -> first_is tt_OpenBraceToken tb = false -> first_is tt_SemicolonToken tb = false ->
+    xone tb s rest -> no_same_line_semi rest ->
+    xone (k :: lp :: ti) (XFor i c p [s]) rest
 (* StatementList up to the '}' of a block *)
 with xlist : list token -> list xstmt -> list token -> Prop :=
 | XL_end kc rest : ty kc = tt_CloseBraceToken -> xlist (kc :: rest) [] rest
@@ -135,7 +226,19 @@ Inductive xprog : list token -> list xstmt -> Prop :=
 | XP_nil : xprog [] []
 | XP_cons ts s rest l : xone ts s rest -> xprog rest l -> xprog ts (s :: l).
 
-(* ---- the model parses the grammar --------------------------------------------------------------------------------------- *)
+(* the tree under Options.WhileToFor: every while statement is a for statement whose body is a block *)
+Fixpoint tw (w : bool) (s : xstmt) : xstmt :=
+  match s with
+  | XLabel n v => XLabel n (tw w v)
+  | XBlock l => XBlock (map (tw w) l)
+  | XIf c v e => XIf c (tw w v) (option_map (tw w) e)
+  | XWhile c v => if w then XFor FNone (Some c) None (match tw w v with XBlock l => l | x => [x] end) else XWhile c (tw w v)
+  | XFor i c p l => XFor i c p (map (tw w) l)
+  | XDo v c => XDo (tw w v) c
+  | _ => s
+  end.
+
+(* ---- pieces --------------------------------------------------------------------------------------------------------------- *)
 
 Lemma sview_closebrace inf : sview inf tt_CloseBraceToken = ANone.
 Proof. destruct inf; vm_compute; reflexivity. Qed.
@@ -170,40 +273,166 @@ Proof. intros E. cbn [skip_semi]. rewrite E, Z.eqb_refl. reflexivity. Qed.
 Lemma skip_true_none rest : first_is tt_SemicolonToken rest = false -> skip_semi true rest = rest.
 Proof. destruct rest as [|k r]; [reflexivity|]. cbn [first_is skip_semi]. intros E. rewrite E, andb_false_r. reflexivity. Qed.
 
-Lemma x_all :
+Lemma ncont_semi inf p k r : ty k = tt_SemicolonToken -> ncont inf p (k :: r) = true.
+Proof. intros E. cbn [ncont]. rewrite E, sview_semicolon. reflexivity. Qed.
+
+Lemma term_ok ex r rest : term ex r rest ->
+  skip_semi true r = rest /\ stmt_end_ok r = true /\ (ex = true -> ncont true prec_OpExpr r = true) /\ (length rest <= length r)%nat.
+Proof.
+  destruct 1 as [sc rest Hsc|rest Hf Ha Hn].
+  - split; [apply skip_true_semi; exact Hsc|]. split; [cbn [stmt_end_ok]; rewrite Hsc, Z.eqb_refl, orb_true_r; reflexivity|].
+    split; [intros _; apply ncont_semi; exact Hsc|cbn [length]; lia].
+  - split; [apply skip_true_none; exact Hf|]. split; [|split; [exact Hn|lia]].
+    destruct rest as [|c r]; [reflexivity|]. cbn [stmt_end_ok asi_ok] in *. destruct Ha as [Ha|Ha]; rewrite Ha; [reflexivity|].
+    change (tt_CloseBraceToken =? tt_CloseBraceToken) with true. apply orb_true_r.
+Qed.
+
+Lemma assign_parse inf xs x rest : derives inf Assignment xs x -> ncont inf prec_OpAssign rest = true ->
+  parse inf prec_OpAssign (xs ++ rest) = Ok (x, rest).
+Proof.
+  intros d Hn. destruct (derives_spells _ _ _ _ d) as [Hs Hi]. cbn [inv code_level] in Hi.
+  apply parse_complete_rest; auto. pose proof prec_order. lia.
+Qed.
+
+Lemma ident_not_pat t : is_identifier t = true ->
+  (t =? tt_OpenBracketToken) || (t =? tt_OpenBraceToken) || (t =? tt_YieldToken) || (t =? tt_AwaitToken) = false.
+Proof.
+  intros H. repeat (apply orb_false_iff; split); apply Z.eqb_neq; intros E; rewrite E in H; vm_compute in H; discriminate.
+Qed.
+
+Lemma xvar_step m inf c r acc : is_identifier (ty c) = true ->
+  parse_xvar (S m) inf (c :: r) acc =
+  let k (b : list Z * option expr) (r' : list token) :=
+    match r' with
+    | d :: r'' => if ty d =? tt_CommaToken then parse_xvar m inf r'' (b :: acc) else Ok (rev (b :: acc), r')
+    | [] => Ok (rev (b :: acc), [])
+    end in
+  match r with
+  | e :: r2 => if ty e =? tt_EqToken then '(x, r3) <~ parse inf prec_OpAssign r2 ;; k (data c, Some x) r3 else k (data c, None) r
+  | [] => k (data c, None) r
+  end.
+Proof. intros H. cbn [parse_xvar]. rewrite (ident_not_pat _ H), H. reflexivity. Qed.
+
+Lemma xvars_ok inf ts l rest : xvars inf ts l rest ->
+  (length rest < length ts)%nat /\
+  forall n acc, (length ts - length rest <= n)%nat -> parse_xvar (S n) inf ts acc = Ok (rev acc ++ l, rest).
+Proof.
+  induction 1 as [c rest Hi He Hc|c e xs x rest Hi He d Hn Hc|c cm ts l rest Hi Hcm Hv [IHl IH]|c e xs x cm ts l rest Hi He d Hcm Hv [IHl IH]].
+  - split; [cbn [length]; lia|]. intros n acc _. rewrite (xvar_step _ _ _ _ _ Hi). cbv zeta.
+    destruct rest as [|a r]; [reflexivity|]. cbn [first_is] in He, Hc. rewrite He, Hc. reflexivity.
+  - split; [cbn [length]; rewrite app_length; lia|]. intros n acc _. rewrite (xvar_step _ _ _ _ _ Hi). cbv zeta.
+    rewrite He, Z.eqb_refl. rewrite (assign_parse _ _ _ _ d Hn). cbn [rbind].
+    destruct rest as [|a r]; [reflexivity|]. cbn [first_is] in Hc. rewrite Hc. reflexivity.
+  - split; [cbn [length]; lia|]. intros n acc Hm. rewrite (xvar_step _ _ _ _ _ Hi). cbv zeta.
+    assert (E1 : (ty cm =? tt_EqToken) = false) by (rewrite Hcm; reflexivity).
+    assert (E2 : (ty cm =? tt_CommaToken) = true) by (rewrite Hcm; reflexivity).
+    rewrite E1, E2.
+    cbn [length] in Hm. destruct n as [|n']; [lia|]. rewrite IH by lia. cbn [rev]. rewrite <- app_assoc. reflexivity.
+  - split; [cbn [length]; rewrite app_length; cbn [length]; lia|]. intros n acc Hm. rewrite (xvar_step _ _ _ _ _ Hi). cbv zeta.
+    rewrite He, Z.eqb_refl.
+    rewrite (assign_parse inf xs x (cm :: ts) d) by (apply ncont_comma; [exact Hcm|lia]). cbn [rbind].
+    assert (E2 : (ty cm =? tt_CommaToken) = true) by (rewrite Hcm; reflexivity). rewrite E2.
+    cbn [length] in Hm. rewrite app_length in Hm. cbn [length] in Hm. destruct n as [|n']; [lia|].
+    rewrite IH by lia. cbn [rev]. rewrite <- app_assoc. reflexivity.
+Qed.
+
+Lemma first_is_true t r : first_is t r = true -> exists k r', r = k :: r' /\ ty k = t.
+Proof. destruct r as [|k r']; [discriminate|]. cbn [first_is]. intros H. apply Z.eqb_eq in H. eauto. Qed.
+
+Lemma fopt_ok t ts o r : t = tt_SemicolonToken \/ t = tt_CloseParenToken -> fopt t ts o r ->
+  for_opt t ts = Ok (o, r) /\ (length r <= length ts)%nat.
+Proof.
+  intros Ht [r0 Hf|xs x r0 d Hf].
+  - split; [|lia]. destruct (first_is_true _ _ Hf) as [k [r' [E Hk]]]. subst r0. cbn [for_opt]. rewrite Hk, Z.eqb_refl. reflexivity.
+  - split; [|rewrite app_length; lia].
+    destruct (first_is_true _ _ Hf) as [k [r' [E Hk]]]. subst r0.
+    assert (Hn : ncont true prec_OpExpr (k :: r') = true).
+    { destruct Ht as [Ht|Ht]; subst t; [apply ncont_semi; exact Hk|apply ncont_close; left; exact Hk]. }
+    destruct (expression_then _ _ _ _ d Hn) as [Hp [k0 [xs' [E Hst]]]]. subst xs. cbn [app for_opt] in *.
+    assert (Hne : (ty k0 =? t) = false).
+    { destruct Ht as [Ht|Ht]; subst t; [apply (starts_not_stmt _ Hst)|apply Z.eqb_neq; apply (starts_not_close _ Hst)]. }
+    rewrite Hne, Hp. reflexivity.
+Qed.
+
+Lemma finit_ok ti i r : finit ti i r -> for_init ti = Ok (i, r) /\ (length r <= length ti)%nat.
+Proof.
+  destruct 1 as [r Hf|xs x r d Hlet Hf|v ts l r Hv Hx Hf].
+  - split; [|lia]. destruct (first_is_true _ _ Hf) as [k [r' [E Hk]]]. subst r. cbn [for_init]. rewrite Hk, Z.eqb_refl. reflexivity.
+  - split; [|rewrite app_length; lia].
+    destruct (first_is_true _ _ Hf) as [k [r' [E Hk]]]. subst r.
+    assert (Hn : ncont false prec_OpExpr (k :: r') = true) by (apply ncont_semi; exact Hk).
+    destruct (expression_then _ _ _ _ d Hn) as [Hp [k0 [xs' [E Hst]]]]. subst xs. cbn [app for_init first_is] in *.
+    destruct (starts_not_stmt _ Hst) as [Hkw Hsemi]. rewrite Hsemi, Hlet.
+    assert (K : forall t, In t [tt_ConstToken; tt_VarToken] -> (ty k0 =? t) = false).
+    { intros t Hin. apply Z.eqb_neq. intros E. rewrite E in Hkw. cbn [In] in Hin.
+      repeat (destruct Hin as [Hin|Hin]; [subst t; vm_compute in Hkw; discriminate|]). contradiction. }
+    rewrite !K by (cbn; tauto). cbn [orb]. rewrite Hp. cbn [rbind]. rewrite Hk, Z.eqb_refl. reflexivity.
+  - destruct (xvars_ok _ _ _ _ Hx) as [Hl Hp]. split; [|cbn [length]; lia].
+    destruct (first_is_true _ _ Hf) as [k [r' [E Hk]]]. subst r. cbn [for_init]. rewrite Hv.
+    change (tt_VarToken =? tt_SemicolonToken) with false. change ((tt_VarToken =? tt_LetToken) || (tt_VarToken =? tt_ConstToken)) with false.
+    rewrite Z.eqb_refl. rewrite (Hp (length ts) []) by lia. cbn [rbind rev app]. rewrite Hk, Z.eqb_refl. reflexivity.
+Qed.
+
+(* ---- the model parses the grammar --------------------------------------------------------------------------------------- *)
+
+Lemma finit_semi ti i k r : finit ti i (k :: r) -> ty k = tt_SemicolonToken.
+Proof.
+  intros H. inversion H as [r0 Hf E1 E2|xs x r0 d Hlet Hf E1 E2|v ts l r0 Hv Hx Hf E1 E2]; subst;
+    match goal with Hf : first_is _ _ = true |- _ => cbn [first_is] in Hf; apply Z.eqb_eq in Hf; exact Hf end.
+Qed.
+
+Lemma fopt_first t ts o k r : fopt t ts o (k :: r) -> ty k = t.
+Proof.
+  intros H. inversion H; subst; match goal with Hf : first_is _ _ = true |- _ => cbn [first_is] in Hf; apply Z.eqb_eq in Hf; exact Hf end.
+Qed.
+
+Lemma tw_inj w s : (forall n v, s <> SLabel n v) -> tw w (inj s) = inj s.
+Proof. intros _. destruct s; reflexivity. Qed.
+
+Ltac for_head Hk Hlp Hfi Hc Hp :=
+  let Ei := fresh "Ei" in let Li := fresh "Li" in let Ec := fresh "Ec" in let Lc := fresh "Lc" in let Ep := fresh "Ep" in let Lp := fresh "Lp" in
+  destruct (finit_ok _ _ _ Hfi) as [Ei Li];
+  destruct (fopt_ok _ _ _ _ (or_introl eq_refl) Hc) as [Ec Lc];
+  destruct (fopt_ok _ _ _ _ (or_intror eq_refl) Hp) as [Ep Lp];
+  cbn [length] in Li, Lc, Lp.
+
+Lemma x_all w :
   (forall ts s rest (x : xone ts s rest),
-     (length rest < length ts)%nat /\ forall m, (length ts - length rest <= m)%nat -> parse_xstmt (S m) false ts = Ok (s, rest)) /\
+     (length rest < length ts)%nat /\ forall m, (length ts - length rest <= m)%nat -> parse_xstmt (S m) w ts = Ok (tw w s, rest)) /\
   (forall ts l rest (x : xlist ts l rest),
-     (length rest < length ts)%nat /\ forall m acc, (length ts - length rest <= m)%nat -> parse_xlist (S m) false ts acc = Ok (rev acc ++ l, rest)).
+     (length rest < length ts)%nat /\
+     forall m acc, (length ts - length rest <= m)%nat -> parse_xlist (S m) w ts acc = Ok (rev acc ++ map (tw w) l, rest)).
 Proof.
   apply (x_both_ind
-    (fun ts s rest _ => (length rest < length ts)%nat /\ forall m, (length ts - length rest <= m)%nat -> parse_xstmt (S m) false ts = Ok (s, rest))
-    (fun ts l rest _ => (length rest < length ts)%nat /\ forall m acc, (length ts - length rest <= m)%nat -> parse_xlist (S m) false ts acc = Ok (rev acc ++ l, rest))).
+    (fun ts s rest _ => (length rest < length ts)%nat /\ forall m, (length ts - length rest <= m)%nat -> parse_xstmt (S m) w ts = Ok (tw w s, rest))
+    (fun ts l rest _ => (length rest < length ts)%nat /\
+       forall m acc, (length ts - length rest <= m)%nat -> parse_xlist (S m) w ts acc = Ok (rev acc ++ map (tw w) l, rest))).
   - (* base *)
     intros ts s rest Ho Hnl. destruct (one_stmt _ _ _ Ho) as [Hl Hs]. split; [exact Hl|]. intros m _.
+    rewrite (tw_inj _ _ Hnl).
     apply xstep_base; [destruct ts; [cbn in Hl; lia|discriminate]|apply Hs; lia|exact Hnl].
   - (* expression statement before '}' *)
     intros xs x c rest [d Hlet] Hc. pose proof (derives_nonempty _ _ _ _ d) as Hl.
     split; [rewrite app_length; cbn [length]; lia|]. intros m _.
-    apply (xstep_base m false (xs ++ c :: rest) (SExpr x) (c :: rest)).
+    apply (xstep_base m w (xs ++ c :: rest) (SExpr x) (c :: rest)).
     + destruct xs; [cbn in Hl; lia|discriminate].
     + apply stmt_ends_at_brace; assumption.
     + intros; discriminate.
   - (* label *)
     intros k c ts s rest Hk Hc Hone [IHl IH] Hsl. split; [cbn [length]; lia|]. intros m Hm.
     rewrite (xstep_label _ _ _ _ _ Hk Hc). cbn [length] in Hm. destruct m as [|m']; [lia|].
-    rewrite IH by lia. cbn [rbind]. rewrite (skip_same_line _ Hsl). reflexivity.
+    rewrite IH by lia. cbn [rbind tw]. rewrite (skip_same_line _ Hsl). reflexivity.
   - (* block *)
     intros ko ts l rest Hko Hlist [IHl IH] Hsl. split; [cbn [length]; lia|]. intros m Hm.
     rewrite (xstep_block _ _ _ _ Hko). cbn [length] in Hm. destruct m as [|m']; [lia|].
-    rewrite (IH m' []) by lia. cbn [rbind rev app]. rewrite (skip_same_line _ Hsl). reflexivity.
+    rewrite (IH m' []) by lia. cbn [rbind rev app tw]. rewrite (skip_same_line _ Hsl). reflexivity.
   - (* if *)
     intros k lp cs c rp ts s rest Hk Hlp d Hrp Hone [IHl IH] Helse Hsl.
     split; [cbn [length]; rewrite app_length; cbn [length]; lia|]. intros m Hm.
     rewrite (xstep_if _ _ _ _ Hk). rewrite (expect_ok_tok _ _ _ Hlp). cbn [rbind].
     rewrite (cond_parse _ _ _ _ d Hrp). cbn [rbind]. rewrite (expect_ok_tok _ _ _ Hrp). cbn [rbind].
     cbn [length] in Hm. rewrite app_length in Hm. cbn [length] in Hm. destruct m as [|m']; [lia|].
-    rewrite IH by lia. cbn [rbind].
+    rewrite IH by lia. cbn [rbind tw option_map].
     destruct rest as [|e r5]; [reflexivity|]. cbn [first_is] in Helse. rewrite Helse. rewrite (skip_same_line _ Hsl). reflexivity.
   - (* if else *)
     intros k lp cs c rp ts s e ts2 s2 rest Hk Hlp d Hrp Hone [IHl IH] He Hone2 [IHl2 IH2] Hsl.
@@ -213,67 +442,133 @@ Proof.
     rewrite (cond_parse _ _ _ _ d Hrp). cbn [rbind]. rewrite (expect_ok_tok _ _ _ Hrp). cbn [rbind].
     cbn [length] in Hm. rewrite app_length in Hm. cbn [length] in Hm. destruct m as [|m']; [lia|].
     rewrite IH by (cbn [length]; lia). cbn [rbind]. rewrite He, Z.eqb_refl.
-    rewrite IH2 by lia. cbn [rbind]. rewrite (skip_same_line _ Hsl). reflexivity.
+    rewrite IH2 by lia. cbn [rbind tw option_map]. rewrite (skip_same_line _ Hsl). reflexivity.
   - (* while *)
     intros k lp cs c rp ts s rest Hk Hlp d Hrp Hone [IHl IH] Hsl.
     split; [cbn [length]; rewrite app_length; cbn [length]; lia|]. intros m Hm.
-    rewrite (xstep_while _ _ _ Hk). rewrite (expect_ok_tok _ _ _ Hlp). cbn [rbind].
+    rewrite (xstep_while _ _ _ _ Hk). rewrite (expect_ok_tok _ _ _ Hlp). cbn [rbind].
     rewrite (cond_parse _ _ _ _ d Hrp). cbn [rbind]. rewrite (expect_ok_tok _ _ _ Hrp). cbn [rbind].
     cbn [length] in Hm. rewrite app_length in Hm. cbn [length] in Hm. destruct m as [|m']; [lia|].
-    rewrite IH by lia. cbn [rbind]. rewrite (skip_same_line _ Hsl). reflexivity.
+    rewrite IH by lia. cbn [rbind tw]. rewrite (skip_same_line _ Hsl). destruct w; [|reflexivity]. destruct (tw true s); reflexivity.
   - (* do ... while ( ) ; *)
-    intros k ts s w lp cs c rp sc rest Hk Hone [IHl IH] Hw Hlp d Hrp Hsc.
+    intros k ts s wk lp cs c rp sc rest Hk Hone [IHl IH] Hw Hlp d Hrp Hsc.
     cbn [length] in IHl. rewrite app_length in IHl. cbn [length] in IHl.
     split; [cbn [length]; lia|]. intros m Hm.
     rewrite (xstep_do _ _ _ _ Hk). cbn [length] in Hm. destruct m as [|m']; [lia|].
     rewrite IH by (cbn [length]; rewrite app_length; cbn [length]; lia). cbn [rbind].
     rewrite (expect_ok_tok _ _ _ Hw). cbn [rbind]. rewrite (expect_ok_tok _ _ _ Hlp). cbn [rbind].
-    rewrite (cond_parse _ _ _ _ d Hrp). cbn [rbind]. rewrite (expect_ok_tok _ _ _ Hrp). cbn [rbind].
+    rewrite (cond_parse _ _ _ _ d Hrp). cbn [rbind]. rewrite (expect_ok_tok _ _ _ Hrp). cbn [rbind tw].
     rewrite (skip_true_semi _ _ Hsc). reflexivity.
   - (* do ... while ( )  without ';' *)
-    intros k ts s w lp cs c rp rest Hk Hone [IHl IH] Hw Hlp d Hrp Hns.
+    intros k ts s wk lp cs c rp rest Hk Hone [IHl IH] Hw Hlp d Hrp Hns.
     cbn [length] in IHl. rewrite app_length in IHl. cbn [length] in IHl.
     split; [cbn [length]; lia|]. intros m Hm.
     rewrite (xstep_do _ _ _ _ Hk). cbn [length] in Hm. destruct m as [|m']; [lia|].
     rewrite IH by (cbn [length]; rewrite app_length; cbn [length]; lia). cbn [rbind].
     rewrite (expect_ok_tok _ _ _ Hw). cbn [rbind]. rewrite (expect_ok_tok _ _ _ Hlp). cbn [rbind].
-    rewrite (cond_parse _ _ _ _ d Hrp). cbn [rbind]. rewrite (expect_ok_tok _ _ _ Hrp). cbn [rbind].
+    rewrite (cond_parse _ _ _ _ d Hrp). cbn [rbind]. rewrite (expect_ok_tok _ _ _ Hrp). cbn [rbind tw].
     rewrite (skip_true_none _ Hns). reflexivity.
+  - (* throw *)
+    intros k xs x r rest Hk d Hlt Ht. destruct (term_ok _ _ _ Ht) as [Hsk [_ [Hn Hl]]].
+    destruct (expression_then _ _ _ _ d (Hn eq_refl)) as [Hp [k0 [xs' [E _]]]]. subst xs.
+    split; [cbn [length app]; rewrite app_length; lia|]. intros m _. cbn [app] in *.
+    rewrite (xstep_throw _ _ _ _ _ Hk (Hlt _ _ eq_refl)). rewrite Hp. cbn [rbind tw]. rewrite Hsk. reflexivity.
+  - (* break / continue *)
+    intros k r rest Hk Hnl Ht. destruct (term_ok _ _ _ Ht) as [Hsk [_ [_ Hl]]].
+    split; [cbn [length]; lia|]. intros m _. rewrite (xstep_branch _ _ _ _ Hk). cbn [tw].
+    destruct r as [|c r']; [inversion Ht; reflexivity|].
+    destruct (Hnl c r' eq_refl) as [H|[H1 [H2 H3]]].
+    + rewrite H. cbn [negb andb]. rewrite Hsk. reflexivity.
+    + rewrite H1. apply Z.eqb_neq in H2. apply Z.eqb_neq in H3. rewrite H2, H3. rewrite !andb_false_r. rewrite Hsk. reflexivity.
+  - (* break / continue label *)
+    intros k c r rest Hk Hlt Hi Ht. destruct (term_ok _ _ _ Ht) as [Hsk [_ [_ Hl]]].
+    split; [cbn [length]; lia|]. intros m _. rewrite (xstep_branch _ _ _ _ Hk). cbn [tw].
+    rewrite Hlt, Hi. cbn [negb andb]. rewrite Hsk. reflexivity.
+  - (* var *)
+    intros k ts l r rest Hk Hv Ht. destruct (term_ok _ _ _ Ht) as [Hsk [Hend [_ Hl]]].
+    destruct (xvars_ok _ _ _ _ Hv) as [Hlv Hp].
+    split; [cbn [length]; lia|]. intros m _. rewrite (xstep_var _ _ _ _ Hk).
+    rewrite (Hp (length ts) []) by lia. cbn [rbind rev app tw]. rewrite Hend, Hsk. reflexivity.
+  - (* for ... { } *)
+    intros k lp ti i s1 tc c s2 tp p rp ko tb l rest Hk Hlp Hfi Hc Hp Hko Hlist [IHl IH] Hsl.
+    for_head Hk Hlp Hfi Hc Hp. cbn [length] in *.
+    split; [lia|]. intros m Hm.
+    rewrite (xstep_for _ _ _ _ Hk). unfold for_arm. rewrite (expect_ok_tok _ _ _ Hlp). cbn [rbind].
+    rewrite Ei. cbn [rbind].
+    pose proof (finit_semi _ _ _ _ Hfi) as Hs1.
+    pose proof (fopt_first _ _ _ _ _ Hc) as Hs2.
+    pose proof (fopt_first _ _ _ _ _ Hp) as Hrp.
+    rewrite (expect_ok_tok _ _ _ Hs1). cbn [rbind]. rewrite Ec. cbn [rbind]. rewrite (expect_ok_tok _ _ _ Hs2). cbn [rbind].
+    rewrite Ep. cbn [rbind]. rewrite (expect_ok_tok _ _ _ Hrp). cbn [rbind]. rewrite Hko, Z.eqb_refl.
+    destruct m as [|m']; [lia|]. rewrite (IH m' []) by lia. cbn [rbind rev app tw]. rewrite (skip_same_line _ Hsl). reflexivity.
+  - (* for ... ; *)
+    intros k lp ti i s1 tc c s2 tp p rp sc rest Hk Hlp Hfi Hc Hp Hsc Hsl.
+    for_head Hk Hlp Hfi Hc Hp. cbn [length] in *.
+    split; [lia|]. intros m Hm.
+    rewrite (xstep_for _ _ _ _ Hk). unfold for_arm. rewrite (expect_ok_tok _ _ _ Hlp). cbn [rbind].
+    rewrite Ei. cbn [rbind].
+    pose proof (finit_semi _ _ _ _ Hfi) as Hs1.
+    pose proof (fopt_first _ _ _ _ _ Hc) as Hs2.
+    pose proof (fopt_first _ _ _ _ _ Hp) as Hrp.
+    rewrite (expect_ok_tok _ _ _ Hs1). cbn [rbind]. rewrite Ec. cbn [rbind]. rewrite (expect_ok_tok _ _ _ Hs2). cbn [rbind].
+    rewrite Ep. cbn [rbind]. rewrite (expect_ok_tok _ _ _ Hrp). cbn [rbind]. rewrite Hsc.
+    change (tt_SemicolonToken =? tt_OpenBraceToken) with false. rewrite Z.eqb_refl. cbn [rbind tw map]. rewrite (skip_same_line _ Hsl). reflexivity.
+  - (* for ... statement *)
+    intros k lp ti i s1 tc c s2 tp p rp tb s rest Hk Hlp Hfi Hc Hp Hnb Hns Hone [IHl IH] Hsl.
+    for_head Hk Hlp Hfi Hc Hp. cbn [length] in *.
+    split; [lia|]. intros m Hm.
+    rewrite (xstep_for _ _ _ _ Hk). unfold for_arm. rewrite (expect_ok_tok _ _ _ Hlp). cbn [rbind].
+    rewrite Ei. cbn [rbind].
+    pose proof (finit_semi _ _ _ _ Hfi) as Hs1.
+    pose proof (fopt_first _ _ _ _ _ Hc) as Hs2.
+    pose proof (fopt_first _ _ _ _ _ Hp) as Hrp.
+    rewrite (expect_ok_tok _ _ _ Hs1). cbn [rbind]. rewrite Ec. cbn [rbind]. rewrite (expect_ok_tok _ _ _ Hs2). cbn [rbind].
+    rewrite Ep. cbn [rbind]. rewrite (expect_ok_tok _ _ _ Hrp). cbn [rbind].
+    destruct m as [|m']; [lia|].
+    destruct tb as [|a ra]; [cbn [length] in IHl; lia|]. cbn [first_is] in Hnb, Hns. rewrite Hnb, Hns.
+    rewrite IH by lia. cbn [rbind tw map]. rewrite (skip_same_line _ Hsl). reflexivity.
   - (* end of the list *)
     intros kc rest Hkc. split; [cbn [length]; lia|]. intros m acc _. cbn [parse_xlist]. rewrite Hkc, Z.eqb_refl.
-    rewrite app_nil_r. reflexivity.
+    cbn [map]. rewrite app_nil_r. reflexivity.
   - (* one more statement *)
     intros ts s r l rest Hf Hone [IHl IH] Hlist [IHll IHL]. split; [lia|]. intros m acc Hm.
     destruct ts as [|k ts']; [cbn [length] in IHl; lia|]. cbn [first_is] in Hf.
     cbn [parse_xlist]. rewrite Hf. destruct m as [|m']; [lia|].
-    rewrite IH by lia. cbn [rbind]. rewrite IHL by lia. cbn [rev]. rewrite <- app_assoc. reflexivity.
+    rewrite IH by lia. cbn [rbind]. rewrite IHL by lia. cbn [rev map]. rewrite <- app_assoc. reflexivity.
 Qed.
 
-Lemma xprog_module ts l : xprog ts l ->
-  forall m acc, (length ts <= m)%nat -> parse_xmodule (S m) false ts acc = Ok (rev acc ++ l).
+Lemma xprog_module w ts l : xprog ts l ->
+  forall m acc, (length ts <= m)%nat -> parse_xmodule (S m) w ts acc = Ok (rev acc ++ map (tw w) l).
 Proof.
   induction 1 as [|ts s rest l Hone Hp IH]; intros m acc Hm.
   - cbn. rewrite app_nil_r. reflexivity.
-  - destruct (proj1 x_all _ _ _ Hone) as [Hl Hs].
+  - destruct (proj1 (x_all w) _ _ _ Hone) as [Hl Hs].
     destruct ts as [|k ts']; [cbn [length] in Hl; lia|].
     cbn [parse_xmodule]. rewrite (Hs (length (k :: ts'))) by lia. cbn [rbind].
     destruct m as [|m']; [cbn [length] in Hm; lia|].
-    rewrite IH by lia. cbn [rev]. rewrite <- app_assoc. reflexivity.
+    rewrite IH by lia. cbn [rev map]. rewrite <- app_assoc. reflexivity.
 Qed.
 
-(* Every program of the statement fragment is parsed to exactly the statement list the grammar prescribes. *)
+Fixpoint tw_false (s : xstmt) : tw false s = s.
+Proof.
+  destruct s; cbn [tw]; try reflexivity.
+  - f_equal. apply tw_false.
+  - f_equal. induction l as [|a l IH]; [reflexivity|]. cbn [map]. rewrite (tw_false a), IH. reflexivity.
+  - rewrite (tw_false s). destruct e as [x|]; cbn [option_map]; [rewrite (tw_false x)|]; reflexivity.
+  - f_equal. apply tw_false.
+  - f_equal. induction l as [|a l IH]; [reflexivity|]. cbn [map]. rewrite (tw_false a), IH. reflexivity.
+  - f_equal. apply tw_false.
+Qed.
+
+Lemma map_tw_false l : map (tw false) l = l.
+Proof. induction l as [|a l IH]; [reflexivity|]. cbn [map]. rewrite tw_false, IH. reflexivity. Qed.
+
+(* Every program of the statement fragment is parsed to exactly the statement list the grammar prescribes ... *)
 Theorem program_of_statement_fragment_proof : forall ts l, xprog ts l -> parse_xprogram false ts = Ok l.
-Proof. intros ts l H. unfold parse_xprogram. rewrite (xprog_module _ _ H) by lia. reflexivity. Qed.
+Proof.
+  intros ts l H. unfold parse_xprogram. rewrite (xprog_module false _ _ H) by lia. cbn [rev app]. rewrite map_tw_false. reflexivity.
+Qed.
 
-(* ---- non-vacuity: `if ( a ) { b <newline> } else do c ; while ( a ) <newline> l : while ( b ) ;` ------------------------ *)
-
-Definition kw (t : Z) : token := mkTok t false (tok_bytes t).
-Definition x_tokens : list token :=
-  [kw tt_IfToken; kw tt_OpenParenToken; ida; kw tt_CloseParenToken; kw tt_OpenBraceToken; idb; kw tt_CloseBraceToken; kw tt_ElseToken;
-   kw tt_DoToken; idc; semi false; kw tt_WhileToken; kw tt_OpenParenToken; ida; kw tt_CloseParenToken;
-   mkTok tt_IdentifierToken true [108]; colon; kw tt_WhileToken; kw tt_OpenParenToken; idb; kw tt_CloseParenToken; semi false].
-Definition x_stmts : list xstmt :=
-  [XIf va (XBlock [XExpr vb]) (Some (XDo (XExpr vc) va)); XLabel [108] (XWhile vb XEmpty)].
-
-Example x_example : parse_xprogram false x_tokens = Ok x_stmts.
-Proof. vm_compute. reflexivity. Qed.
+(* ... and under Options.WhileToFor to that list with every while statement rewritten to `for ( ; c ; ) { body }` *)
+Theorem program_of_statement_fragment_w2f_proof : forall ts l, xprog ts l -> parse_xprogram true ts = Ok (map (tw true) l).
+Proof. intros ts l H. unfold parse_xprogram. rewrite (xprog_module true _ _ H) by lia. reflexivity. Qed.
